@@ -600,7 +600,8 @@ class Run:
         )
         # evidence/ is only ever written by runs against /repo itself; a run against a scratch copy carrying a seeded change
         # (DREYE_REPO, harness/seedscan.sh) leaves its record under replays/ (not committed)
-        evdir = os.path.join(VERIF, "evidence") if os.path.realpath(REPO) == "/repo" else os.path.join(VERIF, "replays", "_scan_evidence")
+        full_run = os.path.realpath(REPO) == "/repo" and self.only_case is None      # a --case / --replay run is a partial run
+        evdir = os.path.join(VERIF, "evidence") if full_run else os.path.join(VERIF, "replays", "_scan_evidence")
         os.makedirs(evdir, exist_ok=True)
         with open(os.path.join(evdir, "%s.json" % self.prop), "w") as f:
             json.dump(jsonable(ev), f, indent=1)
